@@ -77,15 +77,22 @@ func TestC04(t *testing.T) {
 		// lookups added and removed by events (late observers see the initial value set)
 		{"toggled-lookups", &tch.Config{Links: links, Lookups: lookups, Streams: true, Tick: true}, 4, 6},
 	}
+	unconfirmed := 0
 	for _, sc := range scens {
 		d := sc.dq
 		if !run.Quick() {
 			d = sc.dt
 		}
 		res := hist.BFS(t, &hist.Config{Name: "controller/" + sc.name, MaxDepth: d, Deadline: run.Deadline(), New: mk(sc.cfg)})
+		// every violating history is replayed 4 more times before it is reported
+		if n := tch.Confirm(t, mk(sc.cfg), res, 4); n > 0 {
+			res.Exhaustive = false
+			unconfirmed += n
+		}
 		agg.AddHist(res)
 	}
 	agg.Finish(false)
+	run.Cov["violations_dropped_as_not_reproducible"] = unconfirmed
 	run.Cov["lookup_values_judged"] = tch.ValuesJudged.Load()
 	run.Cov["streams_dispatched"] = tch.StreamsDelivered.Load()
 	run.Cov["self_dials_applied"] = tch.SelfDials.Load()
